@@ -294,6 +294,21 @@ const STMT_TEMPLATES: &[&str] = &[
     "struct Pt(px); a := A; b := B; g := \\p, k -> px(p); try (Pt(a, b) g= C) catch e -> 0; [a, b]",
     "struct Pt(px, py); a := A; b := B; Pt(a, b) = Pt(B, A); [a, b]",
     "struct Pt(px, py); switch (A) case Pt(a) -> a case Pt(a, b) -> [a, b] case Pt(a, b, c) -> c case _ -> B",
+    // several try / catch statements in ONE scope with the same catch name, and a catch name that shadows a
+    // variable of the scope: each catch clause binds in its own fresh scope
+    "!ok r1 := try A[B] catch e -> 1; r2 := try A[C] catch e -> 2; r3 := try (A[B][C]) catch e -> 3; [r1, r2, r3]",
+    "!ok e := 5; r := try (A[B][C]) catch e -> 7; [r, e]",
+    "!ok f := \\ -> (try A[B] catch e -> 1); g := \\ -> (e := 0; try A[C] catch e -> 2); [f(), g(), f()]",
+    // the folding builtins in their infix (single-operator chain), partial-application and op-assign forms:
+    // their internal early exit must not leave the builtin
+    "try (A any B) catch e -> 0",
+    "try (A all B) catch e -> 0",
+    "try (any(B)(A)) catch e -> 0",
+    "x := A; try (x any= B) catch e -> 0; x",
+    "(for (q <- [1, 2, 3]) yield (try (A any B) catch e -> 0))",
+    "try (A find B) catch e -> 0",
+    "try (A take B) catch e -> 0",
+    "try (A drop B) catch e -> 0",
 ];
 
 /// the statement sweep's programs, in a fixed order (index = case id)
@@ -302,6 +317,8 @@ fn build_stmts(tier: &str, seed: u64) -> Vec<(usize, String)> {
     let mut srng = Rng::new(seed ^ 0x57A7);
     let mut out = vec![];
     for (ti, t) in STMT_TEMPLATES.iter().enumerate() {
+        // "!ok " marks a template in which every error is caught: its evaluation must end with a value
+        let t = &t.trim_start_matches("!ok ");
         let three = t.contains('C');
         let two = three || t.split(|ch: char| !ch.is_alphanumeric() && ch != '_').any(|w| w == "B");
         for &a in &spool {
@@ -431,6 +448,8 @@ fn child_stmt(args: &Args) {
         current.store(u64::MAX, Ordering::SeqCst);
         let class = match &res {
             Outcome::Panic(m) => format!("panic: {}", m.replace('\t', " ").replace('\n', " ")),
+            // a break / continue / return that leaves evaluate() (try/catch does not receive those)
+            Outcome::Escape(m) => format!("escape: {}", m.replace('\t', " ").replace('\n', " ")),
             o => o.class(),
         };
         let mut o = out.lock();
@@ -545,7 +564,7 @@ fn main() {
                 complex, strings incl. non-ASCII, lists, dicts with and without default, vectors, bytes incl. non-UTF-8, finite \
                 stream, closures, builtins, containers with an unhashable value nested inside, finite streams whose production raises part-way, advanced list-backed streams) plus sampled 3-tuples, called through Func::run under catch_unwind in child \
                 processes with a 6 s per-case watchdog (a case that exceeds it is re-run alone with a 30 s limit before it is reported as a hang; a shard gives up after 12 restarts) and a 6 GiB address-space limit; numeric-size builtins are skipped when an \
-                argument is astronomically large. Then try/catch containment through source programs, the statement sweep (62 statement templates x pool tuples, also in watchdogged child processes) and fault-injected \
+                argument is astronomically large. Then try/catch containment through source programs, the statement sweep (73 statement templates x pool tuples, also in watchdogged child processes) and fault-injected \
                 generated programs. non-trivial = a call that raised or returned normally with >= 1 argument; distinct = \
                 distinct call text"
         .into();
@@ -613,6 +632,18 @@ fn main() {
                 "stmt" => {
                     rep.arm("statement-sweep");
                     nstmt += 1;
+                    // no statement template contains break / continue / return: control flow that escapes
+                    // evaluation came out of a builtin (it is neither a value nor a catchable error)
+                    if STMT_TEMPLATES[*ti].starts_with("!ok ") && !class.starts_with("ok") && !bad && !class.starts_with("escape") {
+                        let t = STMT_TEMPLATES[*ti];
+                        let key = format!("uncaught:stmt:{}", t.split(';').last().unwrap_or(t).trim().chars().take(24).collect::<String>().replace(' ', "_"));
+                        rep.judge(&key, src, &class, "ok (every error is caught)", "ok (every error is caught)");
+                    }
+                    if class.starts_with("escape") {
+                        let t = STMT_TEMPLATES[*ti];
+                        let key = format!("escape:stmt:{}", t.split(';').last().unwrap_or(t).trim().chars().take(24).collect::<String>().replace(' ', "_"));
+                        rep.judge(&key, src, &class, "ok-or-throw", "ok-or-throw");
+                    }
                     if bad {
                         let t = STMT_TEMPLATES[*ti];
                         let key = format!("{}:stmt:{}", kind, t.split(';').last().unwrap_or(t).trim().chars().take(24).collect::<String>().replace(' ', "_"));
